@@ -40,6 +40,8 @@ PROPS = {
                 trusted=["SHA-256 treated as an arbitrary function H in theorems; 'never delivered' rests on the 48-bit MAC assumption"]),
     "C08": dict(lean=["Mav.Props.C08"], groups=[("C08", sizes(150, 4000))],
                 trusted=["forwarding chain = composition of the reader and writer models (Driver hopChain); Node.FixFrame model in Mav/Model/Writer.lean"]),
+    "C20": dict(lean=["Mav.Props.C20"], groups=[("C20", sizes(60, 1500))],
+                trusted=["time.Time modelled as (seconds, nanoseconds) with Go's time.Unix normalisation and UnixMicro made explicit (Mav/Model/Tlog.lean); validated by TIE-D on epochs around 1970 and at the int64 extremes"]),
     "C09": dict(lean=["Mav.Props.C09"], groups=[("C09", sizes(100, 600))],
                 trusted=["streamwriter model hand-written (Mav/Model/Writer.lean), tied by TIE-D write histories and source pins"]),
     "C07": dict(lean=["Mav.Props.C07"], groups=[("C07", sizes(150, 5000))],
